@@ -193,8 +193,7 @@ impl<T: RealNumber + ScalarOperand + AddAssign + SubAssign + MulAssign + DivAssi
     }
 
     fn to_row_vector(self) -> Self::RowVector {
-        let vec_size = self.nrows() * self.ncols();
-        self.into_shape(vec_size).unwrap()
+        self.iter().copied().collect()
     }
 
     fn get(&self, row: usize, col: usize) -> T {
@@ -381,7 +380,7 @@ impl<T: RealNumber + ScalarOperand + AddAssign + SubAssign + MulAssign + DivAssi
     }
 
     fn reshape(&self, nrows: usize, ncols: usize) -> Self {
-        self.clone().into_shape((nrows, ncols)).unwrap()
+        Array::from_shape_vec((nrows, ncols), self.iter().copied().collect()).unwrap()
     }
 
     fn copy_from(&mut self, other: &Self) {
